@@ -21,7 +21,10 @@ from concurrent.futures import ThreadPoolExecutor
 from .. import tlc
 from ..common import Check, load_known
 from ..probe import quiet_logging
+from . import c16_pagecache as pagec
 from . import c16_policies as pol9
+from . import c16_softttl as soft
+from . import c16_tiered as tiered
 from . import c16_world as world
 
 SPEC = tlc.SPECS / "cache"
@@ -109,9 +112,14 @@ class Runs:
         self.chk = chk
         self.traces = []
         self.meta = {}
+        self.hung = {}
 
     def execute(self, cfg, prog, origin):
+        if self.hung.get(cfg["pol"], 0) >= 3:       # this policy spins on the tree under test: stop feeding it
+            return None
         w = world.CacheWorld(cfg, prog).run()
+        if w.hung:
+            self.hung[cfg["pol"]] = self.hung.get(cfg["pol"], 0) + 1
         tid = len(self.traces) + 1
         self.traces.append(w.trace(tid))
         self.meta[tid] = {"origin": origin, "cfg": cfg, "prog": prog}
@@ -222,6 +230,10 @@ def random_case(rng, i):
         K = rng.choice((2, 3))
         prog = random_prog(rng, K, rng.choice((2, 3)), 6, KINDS_W, (0, 0, 1, 2, 3))
         cfg = world_cfg(K=K, cap=rng.randint(1, K), wt=False, pol=pol, lat=lat, pre=pre_values(K, [1]), tick_ns=tick, seed=seed)
+    if i % 7 == 3:      # a CacheWarmer (cache_warming.py) pre-populates the cache while the clients run
+        K = cfg["K"]
+        cfg["warm"] = {"keys": [rng.randint(1, K) for _ in range(rng.randint(1, K + 1))], "every": rng.choice((1, 2, 3))}
+        regime += "+warmer"
     return cfg, prog, regime
 
 
@@ -284,13 +296,37 @@ def run(tier, seed, replay=None):
                                     nops=(1, 1, 0) if quick else (2, 1, 0)),
                           timeout=3000, extra=["-dump", str(gen_wd / "states")], workers=2, light=quick)
 
+    soft_jobs = soft.submit(pool, quick)
+    soft_runs = soft.Runs(chk)
+    soft_dev = sorted({e["deviation"] for e in load_known().get("open", [])
+                       if e["property"] == "C16" and e.get("deviation") in soft.DEVIATIONS})
+
+    pc_jobs = pagec.submit(pool, quick)
+    pc_runs = pagec.Runs(chk)
+    pc_dev = sorted({e["deviation"] for e in load_known().get("open", [])
+                     if e["property"] == "C16" and e.get("deviation") in pagec.DEVIATIONS})
+    tier_jobs = tiered.submit(pool, quick)
+    tier_runs = tiered.Runs(chk)
+    tier_dev = sorted({e["deviation"] for e in load_known().get("open", [])
+                       if e["property"] == "C16" and e.get("deviation") in tiered.DEVIATIONS})
+
     # -- 3a. random real executions while TLC runs --------------------------
     n_rand = 1800 if quick else 30000
     for i in range(n_rand):
         cfg, prog, regime = random_case(rng, i)
         runs.execute(cfg, prog, f"random:{regime}")
 
-    _t(chk, f"random executions done: {len(runs.traces)}")
+    for i in range(500 if quick else 8000):
+        cfg, prog = soft.random_case(rng, i)
+        soft_runs.execute(cfg, prog, "random")
+    for i in range(450 if quick else 8000):
+        cfg, prog = tiered.random_case(rng, i)
+        tier_runs.execute(cfg, prog, "random")
+    for i in range(300 if quick else 6000):
+        cfg, prog = pagec.random_case(rng, i)
+        pc_runs.execute(cfg, prog, "random")
+    _t(chk, f"random executions done: {len(runs.traces)} + soft-ttl {len(soft_runs.traces)} + multi-tier "
+            f"{len(tier_runs.traces)} + page-cache {len(pc_runs.traces)}")
     # -- collect model checking -------------------------------------------
     for name, fut in jobs.items():
         res = fut.result()
@@ -360,6 +396,8 @@ def run(tier, seed, replay=None):
         sc, prog = json.loads(pk)
         st = terms[pk]
         w = runs.execute(scen_cfg(sc, K=2, cap=1, pol="LRU", pre=pre_values(2, [1])), prog, "model_program")
+        if w is None:
+            continue
         chk.replays += 1
         n_model += 1
         # state-checked replay: the model's terminal state against the real final state
@@ -380,15 +418,34 @@ def run(tier, seed, replay=None):
     chk.extra["state_checked_replays"] = {"total": state_checked, "matched": matched}
 
     _t(chk, f"model programs done: {n_model}")
+    soft.collect(chk, soft_jobs, soft_runs)
+    soft_val = pool.submit(soft.validate, soft_runs.traces, "C16_st_trace", soft_dev)
+    pagec.collect(chk, pc_jobs, pc_runs)
+    pc_val = pool.submit(pagec.validate, pc_runs.traces, "C16_pc_trace", pc_dev)
+    tiered.collect(chk, tier_jobs, tier_runs)
+    tier_val = pool.submit(tiered.validate, tier_runs.traces, "C16_mt_trace", tier_dev)
     # -- 3b. validate all recorded executions with the TLA+ trace spec -------
     nb = 4 if quick else 8
     verdicts, drifts, results = validate(runs.traces, known_dev, "C16_trace",
                                          chunk=(len(runs.traces) + nb - 1) // nb, parallel=nb)
     for r in results:
         chk.add_tlc(f"CacheTrace batch Dev={known_dev}", r, note="trace validation, one state per recorded segment")
-    chk.impl_traces = len(runs.traces)
+    sv, sd, sres = soft_val.result()
+    chk.add_tlc(f"SoftTtlTrace batch Dev={soft_dev}", sres, note="trace validation, SoftTTLCache")
+    tv, td, tres = tier_val.result()
+    chk.add_tlc(f"TieredTrace batch Dev={tier_dev}", tres, note="trace validation, MultiTierCache")
+    tiered.judge(chk, tier_runs, tv, td)
+    chk.extra["multi_tier_verdicts"] = {v: sum(1 for x in tv.values() if x[0] == v) for v in {x[0] for x in tv.values()}}
+    pv, pd, pres = pc_val.result()
+    chk.add_tlc(f"PageCacheTrace batch Dev={pc_dev}", pres, note="trace validation, PageCache")
+    pagec.judge(chk, pc_runs, pv, pd)
+    chk.extra["page_cache_verdicts"] = {v: sum(1 for x in pv.values() if x[0] == v) for v in {x[0] for x in pv.values()}}
+    chk.extra["page_cache_runs_that_raised_KeyError"] = pc_runs.raised
+    chk.impl_traces = len(runs.traces) + len(soft_runs.traces) + len(tier_runs.traces) + len(pc_runs.traces)
     _t(chk, "trace validation done")
     judge(chk, runs, verdicts, drifts)
+    soft.judge(chk, soft_runs, sv, sd)
+    chk.extra["soft_ttl_verdicts"] = {v: sum(1 for x in sv.values() if x[0] == v) for v in {x[0] for x in sv.values()}}
     by = {}
     for tid, (v, pos, taint) in verdicts.items():
         o = runs.meta[tid]["origin"]
